@@ -1,8 +1,8 @@
 (** * Proofs.GameExamples — concrete games: the hypotheses of the theorems of
     [Proofs.GameProtocol] are satisfiable, and the operations behave as stated on them. *)
 From Coq Require Import NArith List Bool.
-From Chess Require Import Model.Game Proofs.GameBase Proofs.GameThreefold Proofs.GameScan
-  Proofs.GameProtocol.
+From Chess Require Import Spec.Draw Model.Game Proofs.GameBase Proofs.GameThreefold Proofs.GameScan
+  Proofs.GameProtocol Proofs.GameClaims.
 Import ListNotations.
 Open Scope N_scope.
 
@@ -81,10 +81,11 @@ Proof. vm_compute. repeat split. Qed.
 Example no_offer_refused : g_accept_draw (new_with_board sb) = Some (false, new_with_board sb).
 Proof. vm_compute. reflexivity. Qed.
 (** an offer as the latest action is accepted whatever its colour *)
+Definition g_fo : game := Eval vm_compute in the_game sb [OpOffer Black].
 Example fresh_offer_accepted :
-  exists g, g_offer_draw (new_with_board sb) Black = Some (true, g) /\
-            g_accept_draw g = Some (true, push_action g AcceptDraw).
-Proof. eexists. split; vm_compute; reflexivity. Qed.
+  g_offer_draw (new_with_board sb) Black = Some (true, g_fo) /\
+  g_accept_draw g_fo = Some (true, push_action g_fo AcceptDraw).
+Proof. vm_compute. repeat split. Qed.
 
 (** ** 4. A board invariant closed under legal moves: the hypotheses [Inv], [inv_step] of
     the invariant theorems are jointly satisfiable on a game with an accepted move.
@@ -143,4 +144,32 @@ Definition g_mate : game := Eval vm_compute in
 Example g_mate_result :
   length (actions g_mate) = 4%nat /\ side_to_move g_mate = White /\
   result g_mate = Some (Some BlackCheckmates).
+Proof. vm_compute. repeat split. Qed.
+
+(** ** 6. A change of castling rights clears the key list but not the counter:
+    Nf3 Nf6 Rg1 Rg8 (both sides lose the king-side right), then Rh1 Rh8 Ng1 Ng8 and two
+    more knight round trips.  The placement of the start position recurs after 8 plies but
+    with other rights; the claim becomes available after ply 14. *)
+Definition rook_line : list op :=
+  map (fun sd => OpMove (mvn (fst sd) (snd sd)))
+    [(6,21); (62,45); (7,6); (63,62); (6,7); (62,63); (21,6); (45,62);
+     (6,21); (62,45); (21,6); (45,62); (6,21); (62,45); (21,6); (45,62)].
+Definition probe (n:nat) : option bool * N * nat * bool :=
+  let g := the_game sb (firstn n rook_line) in
+  (can_declare_draw g, clock_g g, length (keys_g g),
+   can_claim (abs_board sb) (log_moves (actions g))).
+Example rights_change_clears_keys_only :
+  probe 2 = (Some false, 2, 3%nat, false) /\
+  probe 3 = (Some false, 3, 1%nat, false) /\      (* Rg1: keys restart, counter goes on *)
+  probe 4 = (Some false, 4, 1%nat, false) /\      (* Rg8: likewise *)
+  probe 8 = (Some false, 8, 5%nat, false) /\      (* start placement, other rights *)
+  probe 13 = (Some false, 13, 10%nat, false) /\
+  probe 14 = (Some true, 14, 11%nat, true) /\
+  probe 16 = (Some true, 16, 13%nat, true).
+Proof. vm_compute. repeat split. Qed.
+
+(** the instances of the unproved statements of [Proofs.GameClaims] on the games above *)
+Example g8_spec_claim :
+  can_claim (abs_board sb) (log_moves (actions g8)) = true /\
+  can_claim (abs_board sb) (log_moves (actions g4)) = false.
 Proof. vm_compute. repeat split. Qed.
